@@ -1,1 +1,5 @@
 import SwcVerif.Model.Basic
+import SwcVerif.Model.Traverse
+import SwcVerif.Model.Geom
+import SwcVerif.Props.C04
+import SwcVerif.Props.C12
